@@ -410,13 +410,14 @@ open Graphiq.MixDM
     `MeasurementZ` / `ClassicalCNOT` / `ClassicalCZ` / `MeasurementCNOTandReset` (two distinct qubits), on existing qubits.  If the stabilizer compile returns with the analysis
     flag `nonUniform` off — at every executed measurement all branches agreed on "random?" and on the outcome — and with total
     weight above `2·10⁻⁸` (twice the `np.isclose` tolerance of `apply_measurement`; the weight never grows), and the
-    density-matrix compile returns, then the density matrix is `Σ_k w_k ρ(T_k)` of the mixture, entry by entry.  Every number
+    density-matrix compile returns, then the density matrix is `Σ_k w_k ρ(T_k)` of the mixture, entry by entry, and both backends
+    leave the same classical register (`outcomes[0]` of the mixture is the outcome the density matrix reports).  Every number
     of qubits.  (`per_branch_measurement_differs` below: without the flag condition the statement fails.) -/
 theorem dm_equals_mixture_with_uniform_measurements (ns : Bool) (ne np nc : Nat) (det : Bool) (ops : List COp)
     (hw : ∀ op ∈ ops, OpOK2 (ne + np) np op) (s : StabSt) (d : DmSt)
     (hs : compileStab ns ne np nc det ops = .ok s) (hd : compileDM ns ne np nc det ops = .ok d)
     (hu : s.nonUniform = false) (hW : wThr < Mix.total s.mix) :
-    ∃ ρ, d.ρ = some ρ ∧ Mat.EqOn ρ (mixtureDensity (ne + np) s.mix) :=
+    ∃ ρ, d.ρ = some ρ ∧ Mat.EqOn ρ (mixtureDensity (ne + np) s.mix) ∧ d.creg = s.creg :=
   dm_equals_mixture_meas ns ne np nc det ops hw s d hs hd hu hW
 
 /-- … and then both backends give the same fidelity `tr(ρ ρ_T) = Σ_k w_k tr(ρ_{T_k} ρ_T)` with every stabilizer target `T` -/
